@@ -46,6 +46,9 @@ const (
 	ctxInit = 8 // reachable from a constructor only: the object is not shared yet
 )
 
+// methods of *bitfield.Bitfield that change its bytes
+var pointeeMutators = map[string]bool{"Set": true, "Clear": true}
+
 type ownAccess struct {
 	field string
 	owner string // "torrent" or "Session"
@@ -440,6 +443,13 @@ func (w *ownWalker) walkBody(body ast.Node) {
 				w.fn.calls = append(w.fn.calls, ownCall{callee: "func." + id.Name, pos: x.Pos()})
 			}
 			if sel, ok := x.Fun.(*ast.SelectorExpr); ok {
+				// a mutating method of a pointee that shares the field's lock: t.bitfield.Set(i) changes the
+				// bytes every reader of t.bitfield looks at, so it counts as a write of the field
+				if inner, ok2 := sel.X.(*ast.SelectorExpr); ok2 && pointeeMutators[sel.Sel.Name] {
+					if _, f, isField := w.fieldOf(inner); isField && f == "bitfield" {
+						written[inner] = true
+					}
+				}
 				// a database transaction (bbolt serialises writers with a lock of its own) and every call of the
 				// resumer, which opens one, count as holding the pseudo-lock "Session.db(tx)" for their duration
 				if inner, ok := sel.X.(*ast.SelectorExpr); ok && w.kindOf(inner.X) == "Session" {
@@ -679,9 +689,11 @@ func buildOwnTable() *ownTable {
 			var entry map[string]bool
 			if !isRoot && len(cs) > 0 {
 				for _, c := range cs {
-					if c.f.ctx&(ctxAPI|ctxBG) == 0 {
+					if c.f.ctx&(ctxAPI|ctxBG) == 0 && f.ctx != ctxLoop {
 						continue // only callers outside the loop matter: the loop owns its fields
 					}
+					// (a function that only the loop reaches takes the locks every loop caller holds: a helper
+					// called inside a locked section writes a lock-protected field under that lock)
 					h := c.f.heldAt(c.pos)
 					if c.f.entrySet {
 						for l := range c.f.entry {
